@@ -489,7 +489,7 @@ class Parse(Suite):
 
     def model_expr(self, c):
         e = bytes.fromhex(c["expr"])
-        if b"@{" in e or b":" in e or any(ch >= 128 for ch in e):
+        if _re.search(rb"@\0*\{", e) or b":" in e or any(ch >= 128 for ch in e):
             return None
         return 'c47_parse "%s"' % c["expr"]
 
